@@ -48,6 +48,7 @@ func init() {
 			{ID: "C17-R23", Title: "floats are written in their own width", Floor: 1, Run: floatsAreWrittenInTheirOwnWidth},
 			{ID: "C17-R24", Title: "the loader takes symbols as they were stored", Floor: 5, Run: theLoaderTakesSymbolsAsTheyWereStored},
 			{ID: "C17-R25", Title: "a recorded length cuts the container it was taken from (shared with C18-R30)", Floor: 3, Run: aSnapshotLengthCutsTheContainerItWasTakenFrom},
+			{ID: "C17-R26", Title: "the rollback covers what compiling grows", Floor: 3, Run: theRollbackCoversWhatCompilingGrows},
 		},
 	})
 }
